@@ -17,7 +17,7 @@ def main(tier):
     progfam.model_check(chk)
     total = nontriv = 0
     behs, r = progfam.generate('GenC02pairs.cfg')
-    sub = behs if tier == 'thorough' else behs[vf.seed() % 2::2]
+    sub = behs if tier == 'thorough' else behs[vf.seed() % 4::4]
     n, nt = progfam.replay(chk, sub, 1, ['--manifold'], OWNED, tag='pairs', jobs=12, sig_of=sig)
     total += n; nontriv += nt
     num = 60 if tier == 'quick' else 1500
@@ -52,7 +52,7 @@ def main(tier):
     rnd = random.Random(vf.seed())
     for fam in ('T3', 'D3'):
         eb, r = progfam.generate('Expr_%s.cfg' % fam, module='Expr', timeout=900)
-        sub = eb if tier == 'thorough' else rnd.sample(eb, 1200)
+        sub = eb if tier == 'thorough' else rnd.sample(eb, 500)
         n, nt = progfam.replay(chk, sub, 4, [], OWNED, tag=fam, mode='expr', jobs=12, sig_of=sig)
         total += n; nontriv += nt
     # the results of ~45 deriving operations (smoothing, refinement, hull, Minkowski, warp, normals, split ...) applied to
